@@ -114,6 +114,10 @@ const (
 	// two-word keywords (one tokenizer token, two parser tokens) on lines before the broken statements
 	docK = "SELECT a FROM t LEFT JOIN u ON a = b ORDER BY a;\nSELECT c FROM v GROUP BY c ORDER BY c;\nSELEC 1;\nSELECT d FROM w;\nSELECT e FROM x ORDER BY e, ;"
 	docB = "SELECT b FROM t2;\nSELEC 1;\nSELEC 2;"
+	// a lexical error (the tokenizer's message quotes the neighbouring source lines) next to text that looks like a
+	// position: an array slice on the line above / on the error line itself, and the words "line N" in an identifier
+	docT1 = "SELECT a FROM u;\nSELECT tags[4:1] FROM t;\nSELECT 1e;\nSELECT line_9 FROM v;"
+	docT2 = "SELECT b FROM u;\nSELECT c FROM v;\nSELECT d FROM w;\nSELECT tags[1:7], 1e;"
 )
 
 func (m *model) open(text string, ver int) {
@@ -275,6 +279,8 @@ func alphabet() []item {
 		openItem("open-a", docA),
 		openItem("open-u", docU),
 		openItem("open-k", docK),
+		openItem("open-t1", docT1),
+		openItem("open-t2", docT2),
 		changeItem("chg-full", edit{Full: true, Text: docF}),
 		changeItem("chg-full-k", edit{Full: true, Text: docK}),
 		changeItem("chg-in", edit{S: pos{0, 8}, E: pos{0, 9}, Text: "x"}),                    // behind 'é' in docU
